@@ -733,9 +733,7 @@ class ExprMixin:
                         seen.add(c.get_id())
                         cands.append(c)
         if is_all:
-            q = z3.ForAll([j], z3.Implies(cond, body))
-            insts = [z3.substitute(z3.Implies(cond, body), (j, c)) for c in cands[:8]]
-            return VBool(z3.And(insts + [q])) if insts else VBool(q)
+            return VBool(z3.ForAll([j], z3.Implies(cond, body)))
         q = z3.Exists([j], z3.And(cond, body))
         insts = [z3.substitute(z3.And(cond, body), (j, c)) for c in cands[:8]]
         return VBool(z3.Or(insts + [q])) if insts else VBool(q)
